@@ -10,14 +10,15 @@ def hook_commits():
     except Exception:
         return []
 
-CLAIMED = {
- "C01": dict(text="Lean 4 proof, for every event list (any number of callers, every interleaving of critical sections, status-word swaps, cancellations, releases), that the Mutex/RWMutex models keep the exclusion invariant and that every observable trace is accepted by the exclusion monitor (C01_obs_rw, C01_obs_mutex); the models are tied to /repo on every run by observational trace inclusion of histories recorded from the real code under hook perturbation (accepts_sound).",
-             note="Trusted: Lean kernel + propext/Classical.choice/Quot.sound; the hand-written model (atomic steps = HoldLock critical sections and atomic swaps, sequential consistency); the correspondence is sampling (differential), not proof; harness log order.",
-             technique="Lean 4 inductive invariant + monitor simulation; trace-inclusion correspondence against the real code", design="§6 C01"),
- "C02": dict(text="Lean 4 proof, for every event list, of the parked invariant (a caller parked on an open wait channel is not grantable), of enabledness of a grantable waiter's own re-check step, of non-grantability at quiescence, of cancel-leaves-no-trace and writer preference, for the Mutex/RWMutex models; tied to /repo by trace inclusion including quiescence points (pending calls after a grace period), with the observable C02 monitor evaluated on implementation histories.",
-             note="Progress is proved as enabledness; scheduler fairness assumed. The observable C02 monitor is executable and evaluated on implementation histories; its simulation proof is only done at the state level (theorems quiescent_not_grantable etc.), not yet as a monitor-simulation theorem. Quiescence of the implementation is observed after a grace period and confirmed by re-runs with a 10x longer period.",
-             technique="Lean 4 inductive invariant (no-lost-wake-up) + enabledness lemmas; trace-inclusion correspondence with quiescence observations", design="§6 C02"),
-}
+def load_claimed():
+    out = {}
+    d = os.path.join(ROOT, "manifest.d")
+    for fn in sorted(os.listdir(d)):
+        if fn.endswith(".json"):
+            out[fn[:-5]] = json.load(open(os.path.join(d, fn)))
+    return out
+
+CLAIMED = load_claimed()
 ALL = ["C%02d" % i for i in range(1, 21)]
 PENDING_REASON = "check not built yet in this session (work in progress; see DESIGN.md §6 for the planned model and theorems)"
 
